@@ -279,6 +279,7 @@ let m_sjis (f : Stdlib.String.t list) : Stdlib.String.t =
 let m_incr (f : Stdlib.String.t list) : Stdlib.String.t =
   let data = bytes_of_hex (Stdlib.List.nth f 0) in
   let verbose = (try Stdlib.List.nth f 2 = "1" with _ -> false) in
+  let all = (try Stdlib.List.nth f 3 = "a" with _ -> false) in
   let total = Stdlib.List.length data in
   let consumed rest = total - Stdlib.List.length rest in
   let out = Buffer.create 4096 in
@@ -303,7 +304,7 @@ let m_incr (f : Stdlib.String.t list) : Stdlib.String.t =
                  Stdlib.List.iter (fun l -> if l <> "" then Buffer.add_string out (Printf.sprintf "  s[%d] %s\n" n l))
                    (Stdlib.String.split_on_char '\n' (Buffer.contents d))
                end;
-               if int_of_n code = 0x39 then Some (s', bs') else loop (n + 1) s' bs'
+               if int_of_n code = 0x39 && not all then Some (s', bs') else loop (n + 1) s' bs'
              | r -> Buffer.add_string out (Printf.sprintf "ev[%d]=%s\n" n (outcome_head r)); None)
           else Some (s, bs) in
         (match loop 0 st bs with
